@@ -2,6 +2,7 @@ package simrt
 
 import (
 	"io"
+	"sort"
 	"io/fs"
 	"os"
 	"path/filepath"
@@ -37,6 +38,8 @@ type File struct {
 	isStdout bool
 	isStderr bool
 	wdi      int
+	listed   bool // a directory handle whose entries were handed out
+	nonblock bool // opened with O_NONBLOCK (matters for a FIFO whose writer is late)
 	// pass-through (no scenario)
 	pass *os.File
 }
@@ -148,6 +151,12 @@ func Open(name string) (*File, error) {
 		return newReadFile(name, b, plan), nil
 	}
 	fsp := lookup(name)
+	if fsp == nil && dirExists(name) {
+		// a directory: it can be opened and listed, not read
+		f := newReadFile(name, nil, Plan{})
+		f.isDir = true
+		return f, nil
+	}
 	if fsp == nil {
 		journal.Faults = append(journal.Faults, "open:ENOENT:"+name)
 		return nil, &fs.PathError{Op: "open", Path: name, Err: syscall.ENOENT}
@@ -183,7 +192,11 @@ func Create(name string) (*File, error) {
 func OpenFile(name string, flag int, perm os.FileMode) (*File, error) {
 	writing := flag&(os.O_WRONLY|os.O_RDWR|os.O_CREATE|os.O_TRUNC|os.O_APPEND) != 0
 	if !writing {
-		return Open(name)
+		f, err := Open(name)
+		if err == nil && f != nil && flag&syscall.O_NONBLOCK != 0 {
+			f.nonblock = true
+		}
+		return f, err
 	}
 	if !active {
 		fp, err := os.OpenFile(name, flag, perm)
@@ -304,6 +317,15 @@ func (f *File) Read(p []byte) (int, error) {
 		// a slow source: the reader waits (simulated time) before this read returns
 		d := f.plan.DelaysUs[f.di%len(f.plan.DelaysUs)]
 		f.di++
+		if d > 0 && f.nonblock && f.isPipe {
+			// a FIFO opened with O_NONBLOCK: no writer has opened it yet => end
+			// of file at once; a writer that is there but slow => EAGAIN
+			journal.Faults = append(journal.Faults, "read:NONBLOCK-FIFO:"+f.name)
+			if f.off == 0 {
+				return 0, io.EOF
+			}
+			return 0, &fs.PathError{Op: "read", Path: f.name, Err: syscall.EAGAIN}
+		}
 		if d > 0 {
 			journal.DelayedReads++
 			Sleep(time.Duration(d) * time.Microsecond)
@@ -637,4 +659,163 @@ func SameFile(a, b os.FileInfo) bool {
 		return false
 	}
 	return os.SameFile(a, b)
+}
+
+// ---------------------------------------------------------------------------
+// directories
+
+// dirChildren lists the immediate children of a directory of the virtual
+// file system, sorted by name.
+func dirChildren(dir string) []fileInfo {
+	dir = filepath.Clean(dir)
+	prefix := dir + "/"
+	if dir == "/" {
+		prefix = "/"
+	}
+	seen := map[string]fileInfo{}
+	add := func(path string, size int64, pipe bool) {
+		if len(path) <= len(prefix) || path[:len(prefix)] != prefix {
+			return
+		}
+		rest := path[len(prefix):]
+		for i := 0; i < len(rest); i++ {
+			if rest[i] == '/' {
+				seen[rest[:i]] = fileInfo{name: prefix + rest[:i], dir: true}
+				return
+			}
+		}
+		seen[rest] = fileInfo{name: path, size: size, pipe: pipe}
+	}
+	for k, f := range step.Files {
+		if f.OpenErr == "ENOENT" || (f.Data == nil && f.OpenErr == "" && !f.Pipe) {
+			continue
+		}
+		if f.OpenErr == "EISDIR" {
+			seen[filepath.Base(k)] = fileInfo{name: k, dir: true}
+			continue
+		}
+		add(filepath.Clean(k), int64(len(f.Data)), f.Pipe)
+	}
+	for _, c := range created {
+		if !c.Removed {
+			if fi, err := os.Stat(c.Real); err == nil {
+				add(filepath.Clean(c.Virtual), fi.Size(), false)
+			}
+		}
+	}
+	for d := range madeDirs {
+		add(d+"/.", 0, false)
+	}
+	names := make([]string, 0, len(seen))
+	for n := range seen {
+		if n != "." && n != "" {
+			names = append(names, n)
+		}
+	}
+	sort.Strings(names)
+	out := make([]fileInfo, 0, len(names))
+	for _, n := range names {
+		out = append(out, seen[n])
+	}
+	return out
+}
+
+type dirEntry struct{ fi fileInfo }
+
+func (e dirEntry) Name() string               { return e.fi.Name() }
+func (e dirEntry) IsDir() bool                { return e.fi.IsDir() }
+func (e dirEntry) Type() fs.FileMode          { return e.fi.Mode().Type() }
+func (e dirEntry) Info() (fs.FileInfo, error) { return e.fi, nil }
+
+// ReadDir replaces os.ReadDir: sorted by file name, as documented.
+func ReadDir(name string) ([]os.DirEntry, error) {
+	if !active {
+		return os.ReadDir(name)
+	}
+	if !dirExists(name) {
+		return nil, &fs.PathError{Op: "open", Path: name, Err: syscall.ENOENT}
+	}
+	var out []os.DirEntry
+	for _, fi := range dirChildren(name) {
+		out = append(out, dirEntry{fi})
+	}
+	return out, nil
+}
+
+// directory order: what readdir(2) returns is unspecified (hash order, order
+// of creation, ...): a seeded permutation of the names, decided per listing.
+func (f *File) dirOrder() ([]fileInfo, error) {
+	if f.pass != nil {
+		return nil, &fs.PathError{Op: "readdir", Path: f.name, Err: syscall.ENOTSUP}
+	}
+	if !f.isDir {
+		return nil, &fs.PathError{Op: "readdirent", Path: f.name, Err: syscall.ENOTDIR}
+	}
+	if f.listed {
+		return nil, nil
+	}
+	f.listed = true
+	ch := dirChildren(f.name)
+	perm := sitePerm("readdir:"+f.name, len(ch))
+	out := make([]fileInfo, len(ch))
+	for i, p := range perm {
+		out[i] = ch[p]
+	}
+	return out, nil
+}
+
+// Readdirnames, Readdir, ReadDir replace the methods of *os.File (directory
+// order; n <= 0: everything; n > 0 is served as one batch, then io.EOF).
+func (f *File) Readdirnames(n int) ([]string, error) {
+	if f.pass != nil {
+		return f.pass.Readdirnames(n)
+	}
+	l, err := f.dirOrder()
+	if err != nil {
+		return nil, err
+	}
+	if l == nil && n > 0 {
+		return nil, io.EOF
+	}
+	out := make([]string, 0, len(l))
+	for _, fi := range l {
+		out = append(out, fi.Name())
+	}
+	return out, nil
+}
+
+func (f *File) Readdir(n int) ([]os.FileInfo, error) {
+	if f.pass != nil {
+		return f.pass.Readdir(n)
+	}
+	l, err := f.dirOrder()
+	if err != nil {
+		return nil, err
+	}
+	if l == nil && n > 0 {
+		return nil, io.EOF
+	}
+	out := make([]os.FileInfo, 0, len(l))
+	for _, fi := range l {
+		out = append(out, fi)
+	}
+	return out, nil
+}
+
+func (f *File) ReadDir(n int) ([]os.DirEntry, error) {
+	if f.pass != nil {
+		return f.pass.ReadDir(n)
+	}
+	l, err := f.dirOrder()
+	if err != nil {
+		return nil, err
+	}
+	if l == nil && n > 0 {
+		return nil, io.EOF
+	}
+	out := make([]os.DirEntry, 0, len(l))
+	for _, fi := range l {
+		out = append(out, dirEntry{fi})
+	}
+	return out, nil
 }
